@@ -53,9 +53,10 @@ type dOp struct {
 type tOp struct{ dt time.Duration }
 
 type opDef struct {
-	i *iOp
-	d *dOp
-	t *tOp
+	i    *iOp
+	d    *dOp
+	t    *tOp
+	down uint64 // != 0: the face is destroyed (removed from the forwarder's face tables)
 }
 
 type sys struct {
@@ -175,6 +176,9 @@ func build(cfgName string) explore.System {
 	}
 	s.add("T(100ms)", opDef{t: &tOp{100 * time.Millisecond}})
 	s.add("T(5s)", opDef{t: &tOp{5 * time.Second}})
+	// the non-local peer's face is destroyed; packets it delivered before may still be queued,
+	// so arrivals attributed to N2 keep being part of the alphabet afterwards
+	s.add("Down(N2)", opDef{down: fwsim.N2})
 	for _, n := range []string{"/localhost/x", probeName, A} {
 		for _, f := range []uint64{fwsim.L1, fwsim.N2} {
 			s.addI(iOp{face: f, name: n, cbp: true})
@@ -238,6 +242,9 @@ func (s *sys) Ops(i any) []explore.Op {
 	in := i.(*inst)
 	out := make([]explore.Op, 0, len(s.allOps))
 	for _, op := range s.allOps {
+		if f := s.defs[op.Name].down; f != 0 && !in.sim.FaceRegistered(f) {
+			continue
+		}
 		if d := s.defs[op.Name].d; d != nil {
 			if d.tok == "echo0" && len(in.live) < 1 {
 				continue
@@ -352,6 +359,8 @@ func (s *sys) step(in *inst, op explore.Op) (v []report.Violation) {
 	case d.t != nil:
 		in.sim.Advance(d.t.dt)
 		v = append(v, checkOut(in.sim.Tick(), "periodic reaper")...)
+	case d.down != 0:
+		in.sim.RemoveFace(d.down)
 	}
 	in.refresh()
 	return
@@ -465,7 +474,11 @@ func (s *sys) Canon(i any) string {
 	for k, t := range in.live {
 		liveIdx[t] = k
 	}
-	return fwsim.CanonPitCs(in.dump, in.sim.Queue(), fwsim.CanonOpts{
+	down := ""
+	if !in.sim.FaceRegistered(fwsim.N2) {
+		down = "down(N2)|"
+	}
+	return down + fwsim.CanonPitCs(in.dump, in.sim.Queue(), fwsim.CanonOpts{
 		Token: func(t uint32) string {
 			if k, ok := liveIdx[t]; ok {
 				return fmt.Sprintf("T%d", k)
@@ -533,7 +546,7 @@ func main() {
 			}
 			return 90 * time.Second
 		},
-		Rule: "BFS over histories of Interest arrivals (names /localhost/x, /localhost/nfd/y, /localhop/z, /a, / and /localhost with CanBePrefix; with and without a HopLimit element (1, 2, 255); from local L1 and non-local N2/N3; NextHopFaceId -> N2 / L5), Data arrivals (same names, from L5/N2/L1, no token or echo of a live upstream token) and clock steps, on one real fw.Thread with leaky FIBs (default route and /localhost route to non-local N2, /localhost/nfd -> {L5,N2}), best-route or multicast on /, cache on/off, FIB tree/hash table; C09.out checked on every SendPacket of every step and of the probes, C09.in by comparing the complete white-box dump before/after each rejected packet, C09.local by a fetch-twice probe in every explored state",
+		Rule: "BFS over histories of Interest arrivals (names /localhost/x, /localhost/nfd/y, /localhop/z, /a, / and /localhost with CanBePrefix; with and without a HopLimit element (1, 2, 255); from local L1 and non-local N2/N3; NextHopFaceId -> N2 / L5), Data arrivals (same names, from L5/N2/L1, no token or echo of a live upstream token) clock steps and the destruction of the non-local face N2 (after which packets it delivered earlier still arrive), on one real fw.Thread with leaky FIBs (default route and /localhost route to non-local N2, /localhost/nfd -> {L5,N2}), best-route or multicast on /, cache on/off, FIB tree/hash table; C09.out checked on every SendPacket of every step and of the probes, C09.in by comparing the complete white-box dump before/after each rejected packet, C09.local by a fetch-twice probe in every explored state",
 		Assumptions: []string{
 			"faces are simulated at the dispatch.Face seam (verif/harness/fwsim): Scope() of the fake face is what the thread consults; NextHopFaceId is copied into the packet only on faces with local fields enabled, as NDNLPLinkService.handleIncomingFrame does",
 			"L5 is a pure producer (never sends Interests), so it is never excluded as a next hop for holding an in-record",
